@@ -99,8 +99,73 @@ def one_run(kind, se, ep, periods, stop_epoch=None, metadata="callable", seed=0)
     return fails
 
 
+def failed_evaluation(kind="positive", seed=0):
+    """A metric (an observable's sampling) raises once during a real fit; the caller catches the error and resumes the run
+    from that epoch with the same callbacks: the records are those of the completed evaluations, one per scheduled epoch."""
+    from qucumber.callbacks import MetricEvaluator, ObservableEvaluator
+    from qucumber.observables import SigmaZ, ObservableBase
+    rng = np.random.default_rng(seed)
+    torch.manual_seed(seed)
+    st = C.make_state(kind, 2, 2, 1)
+    data = torch.tensor(rng.integers(0, 2, size=(4, 2)), dtype=torch.double)
+    kw = {} if kind == "positive" else {"input_bases": np.array([list("ZZ"), list("XZ"), list("ZZ"), list("ZY")])}
+    boom = {"metric": 4, "obs": 3}
+    seen = []
+
+    def mA(s, **k):
+        return float(len(seen))
+
+    def mB(s, **k):
+        seen.append(1)
+        if boom["metric"] is not None and len(seen) == boom["metric"]:
+            boom["metric"] = None
+            raise RuntimeError("metric failed once")
+        return 2.0
+
+    class Flaky(ObservableBase):
+        name = "Flaky"
+        symbol = "F"
+        n = 0
+
+        def apply(self, nn_state, samples):
+            Flaky.n += 1
+            if boom["obs"] is not None and Flaky.n == boom["obs"]:
+                boom["obs"] = None
+                raise RuntimeError("observable failed once")
+            return samples.sum(-1)
+    me = MetricEvaluator(1, {"A": mA, "B": mB})
+    oe = ObservableEvaluator(2, [SigmaZ(), Flaky()], num_samples=8, burn_in=1, steps=1)
+    fails = []
+    start, last, guard = 1, 7, 0
+    while start <= last and guard < 5:
+        guard += 1
+        try:
+            st.fit(data, epochs=last, pos_batch_size=2, neg_batch_size=2, k=1, lr=0.01, starting_epoch=start, callbacks=[me, oe], **kw)
+            break
+        except RuntimeError as e:
+            if "failed once" not in str(e):
+                raise
+            done = len(me)                       # epochs whose metric evaluation completed: resume at the next one
+            start = done + 1
+    if [int(e) for e in me.epochs] != list(range(1, last + 1)):
+        fails.append(("MetricEvaluator records after a failed evaluation and a resumed run", [int(e) for e in me.epochs]))
+    if any(set(v.keys()) != {"A", "B"} for _, v in me.past_values):
+        fails.append(("MetricEvaluator holds a partial record", [sorted(v) for _, v in me.past_values]))
+    if me.last != me.past_values[-1][1]:
+        fails.append(("MetricEvaluator.last is not the last record", None))
+    eo = [int(e) for e in oe.epochs]
+    if len(set(eo)) != len(eo) or any(e % 2 for e in eo) or oe.last != oe.past_values[-1][1]:
+        fails.append(("ObservableEvaluator records after a failed evaluation and a resumed run", eo))
+    return fails
+
+
 def native_check(quick=True):
     fails, n = [], 0
+    for kind in ("positive", "complex"):
+        f = failed_evaluation(kind)
+        n += 1
+        if f:
+            fails.append((("failed evaluation, resumed", kind), f[:2]))
     runs = [("positive", 1, 6, (1, 2, 3, 4), None, "callable"), ("complex", 2, 7, (2, 3, 2, 1), 5, "dict"), ("mixed", 1, 4, (1, 1, 2, 3), 3, "dict"),
             ("positive", 3, 9, (3, 2, 4, 5), 8, "none"), ("complex", 1, 4, (2, 2, 2, 2), None, "callable"),
             ("positive", 1, 5, (3, 4, 5, 2), None, "dict"), ("positive", 3, 7, (4, 5, 6, 7), None, "none")]      # evaluators that fire exactly once
